@@ -80,6 +80,14 @@ Definition fail_call (m : tmap) (now : Z) (k : key) (ttl : Z) (o : xout) : tmap 
            else RRaise e), true)
   end.
 
+(* failover with a store condition that raises the listed exception on some results (here: odd identifiers): the function
+   succeeded, so the exception of the condition goes to the caller - it is not a reason to hand out the stored result *)
+Definition failc_call (m : tmap) (now : Z) (k : key) (ttl : Z) (o : xout) : tmap * cres * bool :=
+  match o with
+  | XOk id => if Z.odd id then (m, RRaise 1, true) else fail_call m now k ttl o
+  | XExc _ => fail_call m now k ttl o
+  end.
+
 (* ---------------- hit ---------------- *)
 (* incr(counter, expire=ttl): the TTL is set only when the result is 1 *)
 Definition counter_incr (m : tmap) (now : Z) (k : key) (ttl : Z) : tmap * Z :=
